@@ -12,6 +12,7 @@
 (*   outlayout: "single" | "two" | "interleaved"                             *)
 (*   redirect : "none" | ".fastq" | ".fasta"  (name of a --too-short-output  *)
 (*              file given in the same run, single-end only)                 *)
+(*   untrim   : paired run with an adapter on R1 only and --untrimmed-output  *)
 (***************************************************************************)
 EXTENDS Integers, Sequences, FiniteSets
 
@@ -27,6 +28,10 @@ Valid(c) ==
   /\ (c.outname = "stdout" => c.outcont = "plain" /\ c.outlayout # "two")
   /\ (c.fastaflag => c.outname = "stdout")                          \* --fasta is the way to ask for FASTA on stdout
   /\ (c.redirect # "none" => ~Paired(c) /\ c.outname # "stdout" /\ c.incont = "plain")
+  \* untrim: paired run with an adapter for the first read only and --untrimmed-output (plus
+  \* --untrimmed-paired-output when two files are written): which pairs count as untrimmed must not depend
+  \* on whether the output is two files or one interleaved file
+  /\ (c.untrim => Paired(c) /\ c.outname # "stdout" /\ c.redirect = "none" /\ c.incont = "plain" /\ c.outcont \in {"plain", "gz"})
 
 \* FASTQ cannot be written without qualities: a name that asks for FASTQ while the input is FASTA cannot be
 \* honoured.  The format is determined by the name "identically for every compression suffix and every number
@@ -45,5 +50,6 @@ OutFormat(c) ==
 RedirectFormat(c) == IF c.redirect = ".fasta" THEN "fasta" ELSE "fastq"
 
 Configs == {c \in [infmt : InFmts, incont : InConts, inlayout : Layouts, outname : OutNames, outcont : OutConts,
-                   outlayout : Layouts, fastaflag : BOOLEAN, cores : {1, 2}, redirect : {"none", ".fastq", ".fasta"}] : Valid(c)}
+                   outlayout : Layouts, fastaflag : BOOLEAN, cores : {1, 2}, redirect : {"none", ".fastq", ".fasta"},
+                   untrim : BOOLEAN] : Valid(c)}
 =============================================================================
